@@ -129,6 +129,7 @@ Calls(first) ==
           \cup {[base EXCEPT !.n = n, !.reset = TRUE] : n \in ns}
           \cup {[base EXCEPT !.n = 1, !.optp = [k \in {"probe"} |-> [type |-> "none", lr |-> 0]]]}              \* drop the probe optimizer
           \cup {[base EXCEPT !.n = n, !.optp = [k \in {"object"} |-> [type |-> "none", lr |-> 0]]] : n \in ns}   \* drop the object optimizer (probe-only refinement)
+          \cup {[base EXCEPT !.n = 1, !.optp = [k \in {"probe"} |-> Adam(2)]]}                                  \* (re-)add a probe optimizer (staged optimisation)
           \cup {[base EXCEPT !.n = 1, !.cons = "tv"]}                                             \* constraints changed
           \cup {[base EXCEPT !.n = 2, !.skeep = FALSE, !.schedp = [k \in {"object"} |-> "exp"]]}                   \* scheduler only
 
